@@ -1,0 +1,19 @@
+//go:build verif
+
+// Contracts for the deductive verification in /verif (comment-only; compiled code is unaffected).
+package ruler
+
+// RunRules: every entry must have passed the permission check for its resolved wallet/account name (check before
+// act, C07); an APPROVED verdict creates the only pending approval (tokroot) for that key: the signing root of exactly
+// the submitted data (C05, C08, C03 approve-before-sign). Nothing more is promised about the verdicts.
+
+//@ iface Service.RunRules(self, ctx, credentials, action, data)
+//@ requires [checked] credentials != nil ==> (forall i int :: 0 <= i && i < len(data) && data[i] != nil ==> ckey(credentials.Client, data[i].WalletName, data[i].AccountName, action) in checkedset || wkey(credentials.Client, data[i].WalletName, action) in checkedset)
+//@ modifies tokroot, db
+//@ ensures [len] (len(data) == 0 ==> len(result) == 1 && result[0] == rules.FAILED) && (len(data) > 0 ==> len(result) == len(data))
+//@ ensures [fresh] fresh(result)
+//@ ensures [verdicts] forall i int :: 0 <= i && i < len(result) ==> result[i] == rules.UNKNOWN || result[i] == rules.APPROVED || result[i] == rules.DENIED || result[i] == rules.FAILED
+//@ ensures [att] action == ActionSignBeaconAttestation ==> (forall i int :: 0 <= i && i < len(data) && result[i] == rules.APPROVED ==> data[i] != nil && hastype(data[i].Data, "*rules.SignBeaconAttestationData") && bytes(data[i].PubKey) in tokroot && tokroot[bytes(data[i].PubKey)] == attRootOf(unbox(data[i].Data, "*rules.SignBeaconAttestationData")))
+//@ ensures [prop] action == ActionSignBeaconProposal ==> (forall i int :: 0 <= i && i < len(data) && result[i] == rules.APPROVED ==> data[i] != nil && hastype(data[i].Data, "*rules.SignBeaconProposalData") && bytes(data[i].PubKey) in tokroot && tokroot[bytes(data[i].PubKey)] == propRootOf(unbox(data[i].Data, "*rules.SignBeaconProposalData")))
+//@ ensures [gen] action == ActionSign ==> (forall i int :: 0 <= i && i < len(data) && result[i] == rules.APPROVED ==> data[i] != nil && hastype(data[i].Data, "*rules.SignData") && bytes(data[i].PubKey) in tokroot && tokroot[bytes(data[i].PubKey)] == genRootOf(unbox(data[i].Data, "*rules.SignData")) && prefix4(unbox(data[i].Data, "*rules.SignData").Domain) != ATT && prefix4(unbox(data[i].Data, "*rules.SignData").Domain) != PROP)
+//@ ensures [keep] forall k Bytes :: (forall i int :: !(0 <= i && i < len(data) && data[i] != nil && result[i] == rules.APPROVED && bytes(data[i].PubKey) == k)) ==> ((k in tokroot) <==> old(k in tokroot)) && tokroot[k] == old(tokroot[k])
